@@ -199,6 +199,41 @@ func (p *tpPair) target(s *actor.System, name string, reply bool, goerr ...bool)
 	return ref
 }
 
+// targetBusy: blocks inside the handler of its first message until released, so that whatever arrives meanwhile
+// queues up behind it.
+func (p *tpPair) targetBusy(s *actor.System, name string, started, release chan struct{}) vivid.ActorRef {
+	ref, _ := s.ActorOf(vivid.ActorFN(func(c vivid.ActorContext) {
+		switch m := c.Message().(type) {
+		case *tpMsg:
+			p.ev("target got %d/%s from %s", m.N, m.Tag, p.refStr(c.Sender()))
+			if m.Tag == "first" {
+				close(started)
+				<-release
+			}
+		case *vivid.OnKill:
+			p.ev("target onkill killer=%s poison=%v reason=%s", p.refStr(m.Killer), m.Poison, m.Reason)
+		case *vivid.OnKilled:
+			p.ev("target terminated")
+		}
+	}), vivid.WithActorName(name))
+	return ref
+}
+
+// targetParent: has a child that holds on to its OnKill handler until released — a killed parent stays in its
+// stopping state that long.
+func (p *tpPair) targetParent(s *actor.System, name string, release chan struct{}) vivid.ActorRef {
+	ref, _ := s.ActorOf(vivid.ActorFN(func(c vivid.ActorContext) {
+		if _, ok := c.Message().(*vivid.OnLaunch); ok {
+			c.ActorOf(vivid.ActorFN(func(cc vivid.ActorContext) {
+				if _, ok := cc.Message().(*vivid.OnKill); ok {
+					<-release
+				}
+			}), vivid.WithActorName("held"))
+		}
+	}), vivid.WithActorName(name))
+	return ref
+}
+
 func (e *transpEngine) Exec(line string) (string, string) {
 	tk := strings.Fields(line)
 	if len(tk) != 4 || tk[0] != "tp" {
@@ -245,7 +280,22 @@ func (e *transpEngine) Exec(line string) (string, string) {
 	p.mu.Lock()
 	p.home = map[string]string{"caller": p.addrA, "future": p.addrA, "target": addrOf(loc), "fwd": addrOf(floc)}
 	p.mu.Unlock()
-	tgt := p.target(home(loc), tname, op != "pipe-fail", op == "pipe-err")
+	var tgt vivid.ActorRef
+	release, started := make(chan struct{}), make(chan struct{})
+	var releaseOnce sync.Once
+	letGo := func() { releaseOnce.Do(func() { close(release) }) }
+	defer letGo()
+	switch op {
+	case "kill-busy", "poison-busy":
+		tgt = p.targetBusy(home(loc), tname, started, release)
+	case "watch-stopping":
+		tgt = p.targetParent(home(loc), tname, release)
+		time.Sleep(60 * time.Millisecond)
+		home(loc).Kill(tgt, false, "end") // its own system stops it: it now waits for its child
+		time.Sleep(80 * time.Millisecond)
+	default:
+		tgt = p.target(home(loc), tname, op != "pipe-fail", op == "pipe-err")
+	}
 	tref := mkRef(p.a, tgt)
 	var fref vivid.ActorRef
 	if strings.HasPrefix(op, "pipe") {
@@ -317,6 +367,26 @@ func (e *transpEngine) Exec(line string) (string, string) {
 					time.Sleep(80 * time.Millisecond)
 					home(loc).Kill(tgt, false, "end")
 				}()
+			case "kill-busy", "poison-busy":
+				c.Tell(tref, &tpMsg{N: 1, Tag: "first"})
+				select { // the target is inside the handler of the first message: the rest queues up behind it
+				case <-started:
+				case <-time.After(time.Second):
+				}
+				for n := int64(2); n <= 4; n++ {
+					c.Tell(tref, &tpMsg{N: n, Tag: "q"})
+				}
+				c.Kill(tref, op == "poison-busy", "why")
+				go func() {
+					time.Sleep(250 * time.Millisecond) // everything has arrived and waits behind the first message
+					letGo()
+				}()
+			case "watch-stopping":
+				c.Watch(tref)
+				go func() {
+					time.Sleep(200 * time.Millisecond)
+					letGo()
+				}()
 			case "ping":
 				pong, err := c.Ping(tref, 400*time.Millisecond)
 				if err == nil && pong != nil {
@@ -343,6 +413,9 @@ func (e *transpEngine) Exec(line string) (string, string) {
 	wait := 250 * time.Millisecond
 	if op == "pipe-fail" || strings.HasPrefix(op, "watch") || strings.HasPrefix(op, "unwatch") {
 		wait = 450 * time.Millisecond
+	}
+	if strings.HasSuffix(op, "-busy") || op == "watch-stopping" {
+		wait = 700 * time.Millisecond
 	}
 	time.Sleep(wait)
 	p.mu.Lock()
@@ -396,7 +469,7 @@ func (e *transpEngine) Generate(c *Ctx) {
 			p.stop()
 		}
 	}()
-	ops := []string{"tell", "tellv", "ask", "kill", "poison", "watch", "unwatch", "watch-twin", "unwatch-twin", "ping", "pipe-ok@local", "pipe-ok@remote", "pipe-ok@twin", "pipe-fail@local", "pipe-fail@remote", "pipe-fail@twin", "pipe-err@local", "pipe-err@remote", "pipe-err@twin"}
+	ops := []string{"tell", "tellv", "ask", "kill", "poison", "watch", "unwatch", "watch-twin", "unwatch-twin", "ping", "pipe-ok@local", "pipe-ok@remote", "pipe-ok@twin", "pipe-fail@local", "pipe-fail@remote", "pipe-fail@twin", "pipe-err@local", "pipe-err@remote", "pipe-err@twin", "kill-busy", "poison-busy", "watch-stopping"}
 	seen := map[string][2]string{}
 	for _, cfg := range []string{"codec", "registered"} {
 		for _, op := range ops {
